@@ -47,6 +47,9 @@ RULE = ("cases = (task, generated input(s) / unzipped tdms fixtures, task "
         "non-trivial when the fault fired (the child did not run to "
         "completion unharmed); distinct = different (case, k, kind)")
 TRUSTED_BASE = [
+    "pathlib semantics of suffix/with_suffix as transcribed in "
+    "Model/C10_paths.v (compared with the real setup_task_paths on generated "
+    "names)",
     "rename(2) is atomic and fails without effect; unlink fails without "
     "effect (outside the model: fail_op gives them no partial effect)",
     "HDF5/h5py behaviour when the process is killed with a file open for "
@@ -597,7 +600,7 @@ def sample_ks(info, rng, thorough, budget):
                     "unlink", "link", "del", "copy"):
             must.update(x for x in (k - 1, k, k + 1) if 0 <= x < n)
     rest = [k for k in range(n) if k not in must]
-    if thorough or n <= budget:
+    if n <= budget:
         return sorted(must), rest
     must = sorted(must)
     if len(must) > budget:
@@ -628,8 +631,6 @@ def judge(run, idx, res):
     if obs["unexpected"]:
         fails.append("files outside the output/temporary names appeared: %s"
                      % obs["unexpected"][:4])
-    if kind == "kill" and res["code"] not in (ct.KILL_EXIT, 0):
-        fails.append("harness: kill run ended with code %s" % res["code"])
     if fails:
         desc = ("%s of %s at operation %d (%s): %s; %s" % (
             kind, case["task"], k, op_desc(info, k), "; ".join(fails),
@@ -756,33 +757,40 @@ def _run(run):
                                "no fault-free run of task %s to take a "
                                "trace from: %s" % (task, errs[:2])))
     _tick(run, "acceptance")
+    names_check(run)
+    _tick(run, "names")
     natural_failures(run)
     _tick(run, "natural-failures")
     strace_crosscheck(run)
     _tick(run, "strace-crosscheck")
     # ---- 2. fault enumeration -------------------------------------------
-    total_budget = 10 ** 9 if run.thorough else int(
-        os.environ.get("VERIF_C10_BUDGET", "2600"))
-    per_case = max(20, total_budget // (2 * max(1, ncases)))
+    if run.thorough:
+        # every operation of every case; very long traces (tdms logs are
+        # written line by line) are sampled
+        per_case = int(os.environ.get("VERIF_C10_PER_CASE", "1200"))
+    else:
+        total_budget = int(os.environ.get("VERIF_C10_BUDGET", "2600"))
+        per_case = max(20, total_budget // (2 * max(1, ncases)))
     first, second = [], []
     for idx, info in enumerate(INFO):
         if info["err"] is not None:
             continue
         must, extra = sample_ks(info, run.rng, run.thorough, per_case)
-        first += [(idx, k, kind) for k in must for kind in KINDS]
+        first += [(idx, k, kind) for k in must
+                  for kind in KINDS + ("raise-after",)]
         second += [(idx, k, kind) for k in extra for kind in KINDS]
     # structural positions of all cases first, then the rest, each in random
     # order: whatever part is done when the time is up is a fair sample
     run.rng.shuffle(first)
     run.rng.shuffle(second)
     jobs = first + second
-    limit = None if run.thorough else float(
-        os.environ.get("VERIF_C10_FAULT_SECS", "40"))
+    limit = float(os.environ.get("VERIF_C10_FAULT_SECS",
+                                 "840" if run.thorough else "35"))
     t_start = time.time()
     results = []
     for res in _POOL.imap(fault_job, jobs, chunksize=2):
         results.append(res)
-        if limit is not None and time.time() - t_start > limit:
+        if time.time() - t_start > limit:
             break
     if len(results) < len(jobs):
         run.notes.append("fault enumeration stopped after %.0f s: %d of %d "
@@ -794,8 +802,11 @@ def _run(run):
     for res in results:
         idx, k, kind = res["job"]
         nin = len(INFO[idx]["lay"]["ins"])
-        rendered.append("(%d, %d, %d, %d)" % (idx, nin, k,
-                                              0 if kind == "kill" else 1))
+        # an operation that is performed and then reported as failed is, for
+        # the model, a failure of the next operation without partial effect
+        rendered.append("(%d, %d, %d, %d)" % (
+            idx, nin, k + 1 if kind == "raise-after" else k,
+            0 if kind == "kill" else 1))
     pred = common.coq_map(
         run.scratch, "c10pred", header(),
         "(fun q : Z * Z * Z * Z => let '(i, nin, k, kind) := q in "
@@ -825,12 +836,85 @@ def _run(run):
         for i in range(nout):
             model += [m[2 * i], 1 if m[2 * i + 1] else 0]
         model += m[2 * nout:]
+        # Model.unwind: after the failing operation only writes to / closes
+        # of files that are open happen (no handler opens, renames, deletes)
+        bad_after = [a for a in res["child"].get("after", [])
+                     if a[0] in ("rename", "unlink", "open-w", "open-a",
+                                 "open-r")]
+        if kind != "kill" and bad_after and res["code"] != 0:
+            model = model + ["unwind: only writes and closes"]
+            impl = impl + ["unwind performed %s" % bad_after[:3]]
         run.corr_checked += 1
         if model != impl:
             run.mismatch(cd, model, impl,
                          what="state after the fault differs from the "
                               "model's prediction [out_i, tmp_i exists ..., "
                               "inputs unchanged] at %s" % op_desc(info, k))
+
+
+# --------------------------------------------------------------------------
+# names of the temporary files (Model/C10_paths.v)
+# --------------------------------------------------------------------------
+NAMES_HEADER = ("From Coq Require Import ZArith List.\nImport ListNotations.\n"
+                "From Verif Require Import Model.C10_paths.\n")
+
+
+def gen_name(rng):
+    r = rng.random()
+    alpha = "ab._~-rtdcms1 "
+    if r < 0.25:
+        stem = "".join(rng.choice(alpha) for _ in range(rng.randint(0, 6)))
+        name = stem + rng.choice([".rtdc", ".rtdc~", ".tdms", ".RTDC", ".rtd",
+                                  ".rtdc.", ".rtdc.rtdc", "", ".h5"])
+    elif r < 0.35:
+        name = rng.choice([".rtdc", "rtdc", "...", "a.", ".a", "a..rtdc",
+                           "~", ".rtdc~", "x.rtdc~.rtdc", "\u00e4.rtdc"])
+    else:
+        name = "".join(rng.choice(alpha) for _ in range(rng.randint(1, 10)))
+    if name in ("", ".", "..") or name.strip() != name:
+        name = "n" + name.strip() + "x"
+    return name
+
+
+def names_check(run):
+    """common.setup_task_paths on generated output names against the model
+    of pathlib's suffix arithmetic."""
+    from dclab.cli import common as cli_common
+    n = 3000 if run.thorough else 300
+    d = pathlib.Path(run.scratch) / "names"
+    d.mkdir(exist_ok=True)
+    names, impl = [], []
+    for _ in range(n):
+        name = gen_name(run.rng)
+        pin, pout, ptmp = cli_common.setup_task_paths(
+            d / "in.rtdc", d / name, allowed_input_suffixes=[".rtdc"])
+        names.append(name)
+        impl.append([ord(c) for c in pout.name] + [-1]
+                    + [ord(c) for c in ptmp.name])
+        case = dict(kind="names", name=name)
+        run.record_case(case, "." in name, sample=False)
+        run.count("names")
+        # model independent: what the property needs of the names
+        bad = []
+        if ptmp.name != pout.name + "~":
+            bad.append("temporary name %r is not output name %r + '~'" % (
+                ptmp.name, pout.name))
+        if ptmp.suffix in (".rtdc", ".tdms") or ptmp == pout or ptmp == pin:
+            bad.append("temporary name %r can collide with an input or "
+                       "output" % ptmp.name)
+        if pout.suffix != ".rtdc" or pout.parent != d:
+            bad.append("output %r" % (pout,))
+        if bad:
+            run.oracle_failure(case, "; ".join(bad), None)
+    model = common.coq_map(run.scratch, "c10names", NAMES_HEADER,
+                           "setup_flat",
+                           [common.zlist([ord(c) for c in nm])
+                            for nm in names])
+    for nm, m, i in zip(names, model, impl):
+        run.corr_checked += 1
+        if m != i:
+            run.mismatch(dict(kind="names", name=nm), m, i,
+                         what="setup_task_paths names")
 
 
 # --------------------------------------------------------------------------
@@ -1059,6 +1143,16 @@ def _strip(case):
 
 def replay(payload):
     case = payload.get("case")
+    if case and case.get("kind") == "names":
+        from dclab.cli import common as cli_common
+        d = pathlib.Path("/nonexistent-verif-dir")
+        pin, pout, ptmp = cli_common.setup_task_paths(
+            d / "in.rtdc", d / case["name"], allowed_input_suffixes=[".rtdc"])
+        print("name %r -> output %r, temporary %r" % (
+            case["name"], pout.name, ptmp.name))
+        bad = ptmp.name != pout.name + "~" or pout.suffix != ".rtdc"
+        print("FAILS" if bad else "passes on the current tree")
+        return 1 if bad else 0
     if not case or "task" not in case:
         print("replay: nothing executable in this file (kind=%s): %s" % (
             payload.get("kind"), json.dumps(payload.get("broken"))[:2000]))
@@ -1151,10 +1245,14 @@ def search(run, broken):
                 if self.found is None and f is None:
                     self.found = dict(case=c, desc=d)
         r = R()
+        t_end = time.time() + float(os.environ.get(
+            "VERIF_C10_SEARCH_SECS", "900" if run.thorough else "150"))
         for res in _POOL.imap_unordered(fault_job, jobs, chunksize=4):
             judge(r, res["job"][0], res)
             if r.found:
                 return r.found
+            if time.time() > t_end:
+                break
         # faulty tasks may also simply fail / misbehave without any fault
         for idx, info in enumerate(INFO):
             if info.get("err") is not None:
